@@ -182,6 +182,11 @@ fn add_types_recursive(
     module: &naga::Module,
     ty: Handle<Type>,
 ) {
+    #[cfg(feature = "verif")]
+    {
+        crate::verif::work(crate::verif::TYPES, 1);
+        crate::verif::emit_detail(|| format!("{{\"ev\":\"types.visit\",\"ty\":{}}}", ty.index()));
+    }
     types.insert(ty);
 
     match &module.types[ty].inner {
